@@ -149,7 +149,7 @@ class Gates:
                     self.instances.append("segment-count switch on len with arms %s at line %d" % (sorted(sw["targets"]), sw["ln"]))
 
     def _classify_equality(self, a, b, kind, eq_edge, sw):
-        full_length = kind.startswith("ring") or kind.startswith("subtle") or bool(re.search(r"PartialEq <(str|alloc::string::String|\[u8\]|alloc::vec::Vec<u8>|&str|&\[u8\]|&alloc::string::String) as|PartialEq alloc::string::<impl core::cmp::PartialEq<(alloc::string::String|str|&'a str)> for (str|alloc::string::String|&'a str)>|PartialEq core::str::traits::<impl core::cmp::PartialEq for str>", kind)) or kind == "binop"
+        full_length = kind.startswith("ring") or kind.startswith("subtle") or bool(re.search(r"PartialEq .*(for &?\[u8\]>|for &?str>|<&A as core::cmp::PartialEq<&B>>|for alloc::vec::Vec<u8)", kind)) or bool(re.search(r"PartialEq <(str|alloc::string::String|\[u8\]|alloc::vec::Vec<u8>|&str|&\[u8\]|&alloc::string::String) as|PartialEq alloc::string::<impl core::cmp::PartialEq<(alloc::string::String|str|&'a str)> for (str|alloc::string::String|&'a str)>|PartialEq core::str::traits::<impl core::cmp::PartialEq for str>", kind)) or kind == "binop"
         # footer: (encode(expected), part3) in either order, or (expected bytes, decode(part3))
         for x, y in ((a, b), (b, a)):
             ex = self.encoded(x)
@@ -224,6 +224,11 @@ class Gates:
         ty = self.v.local_ty(ps[0].name)
         return ty == ("&Version" if which == 0 else "&Purpose")
 
+    def path_sensitive(self):
+        if not hasattr(self, "_ps"):
+            self._ps = path_sensitive(self.facts, self.body)
+        return self._ps
+
     # verdicts -----------------------------------------------------------
     def footer_gate_ok(self):
         """every path to Ok passes a footer-equal edge or an edge implying segment count != 4"""
@@ -232,29 +237,35 @@ class Gates:
         targets = self.oks + [b for b, _ in self.delegated]
         if not targets:
             return False, "no Ok exit found"
-        if not self.footer_edges:
-            return False, "no recognised comparison between the expected footer and the token's 4th segment"
-        if not self.not4_edges:
-            return False, "no recognised dispatch on the number of segments"
-        ok = self.v.cfg.must_pass(targets, edges=self.footer_edges + self.not4_edges)
-        return ok, None if ok else "a 4-segment token can be accepted without passing the equal edge of the footer comparison"
+        ok = bool(self.footer_edges) and bool(self.not4_edges) and self.v.cfg.must_pass(targets, edges=self.footer_edges + self.not4_edges)
+        if not ok:
+            # correlated branches (e.g. an Option filled in the 4-segment arm and tested later): decide path-sensitively
+            ps = self.path_sensitive()
+            if ps["footer"][0]:
+                return True, None
+            return False, ps["footer"][1]
+        return ok, None
 
     def count_gate_ok(self):
         if self.body is None:
             return False, "anchor missing"
         targets = self.oks + [b for b, _ in self.delegated]
         ok = bool(self.in34_edges) and self.v.cfg.must_pass(targets, edges=self.in34_edges)
-        return ok, None if ok else "a token whose segment count is not 3 or 4 can be accepted"
+        if not ok:
+            ps = self.path_sensitive()
+            return ps["count"]
+        return ok, None
 
     def header_gate_ok(self, which):
         if self.body is None:
             return False, "anchor missing"
         targets = self.oks + [b for b, _ in self.delegated]
         edges = self.header_edges[which]
-        if not edges:
-            return False, "no recognised comparison between segment %d and the expected %s" % (which, "version" if which == 0 else "purpose")
-        ok = self.v.cfg.must_pass(targets, edges=edges)
-        return ok, None if ok else "a token can be accepted on a path that never compared segment %d with the expected %s" % (which, "version" if which == 0 else "purpose")
+        ok = bool(edges) and self.v.cfg.must_pass(targets, edges=edges)
+        if not ok:
+            ps = self.path_sensitive()
+            return ps["header%d" % which]
+        return ok, None
 
     def payload_ok(self):
         """the Ok value is URL_SAFE_NO_PAD.decode(segment 2)"""
@@ -267,6 +278,60 @@ class Gates:
                 if dd is None or self.part_index(dd) != 2:
                     return False, "the returned bytes are %s, not the strict base64url decoding of segment 2" % M.show(t)[:160]
         return True, None
+
+
+def path_sensitive(facts, body):
+    """Second opinion by abstract interpretation (path sensitive): every accepting path of parse_raw_token
+    (a) has 3 or 4 segments, (b) with 4 segments found encode(expected footer or default) equal to segment 3,
+    (c) found the header text equal to the expected one, (d) returns the decoding of segment 2.
+    Returns dict of verdicts {footer, count, header0, header1, payload} -> (ok, why)."""
+    from . import absint as A
+    from . import models as MD
+    I = A.Interp(facts, MD.MODELS)
+    st = A.State()
+
+    def mk(st_, sym, variant):
+        if variant == "None":
+            return A.none()
+        return A.some(A.Struct("crate::core::footer::Footer", None, {"0": A.Seq("footer.str", A.Aff.sym("len(footer)"), kind="str")}))
+    args = [A.Seq("token", A.Aff.sym("len(token)"), kind="str"), A.Sym("footer", attrs={"adt": "core::option::Option", "make_variant": mk}),
+            A.Ptr(st.new_cell(A.Sym("V"))), A.Ptr(st.new_cell(A.Sym("P")))]
+    outs = I.run(body, args, st)
+    v = {"footer": [True, None], "count": [True, None], "header0": [True, None], "header1": [True, None], "payload": [True, None]}
+    n_ok = 0
+    for o in outs:
+        if o.kind != "return":
+            continue
+        r = I.resolve(o.state, o.value)
+        if not (isinstance(r, A.Struct) and r.variant == "Ok"):
+            continue
+        n_ok += 1
+        if o.state.unmodelled or any("undecided" in n for n in o.state.notes):
+            for k in v:
+                v[k] = [False, "accepting path not decided (%s %s)" % (o.state.unmodelled, o.state.notes[:1])]
+            continue
+        lo, hi = o.state.bounds.get("len(parts0)", (1, A.LEN_MAX))
+        eqs = [(e[1], e[2]) for e in o.state.events if e[0] == "equal"]
+        cond = " & ".join(o.state.cond)[-200:]
+        if not (3 <= lo and hi <= 4):
+            v["count"] = [False, "a token with %d..%d segments is accepted when [%s]" % (lo, hi, cond)]
+        if hi >= 4:
+            good = any({a, b} in ({"b64(footer.str)", "parts0[3]"}, {"b64('')", "parts0[3]"}) for a, b in eqs)
+            if not good:
+                v["footer"] = [False, "a 4-segment token is accepted without encode(expected footer or default) having been found equal to segment 3 when [%s]" % cond]
+        h0 = any({a, b} == {"{parts0[0]}.{parts0[1]}.", "{V}.{P}."} or {a, b} == {"parts0[0]", "V"} for a, b in eqs)
+        h1 = any({a, b} == {"{parts0[0]}.{parts0[1]}.", "{V}.{P}."} or {a, b} == {"parts0[1]", "P"} for a, b in eqs)
+        if not h0:
+            v["header0"] = [False, "a token is accepted without segment 0 having been found equal to the expected version when [%s]" % cond]
+        if not h1:
+            v["header1"] = [False, "a token is accepted without segment 1 having been found equal to the expected purpose when [%s]" % cond]
+        pv = MD.deref(I, o.state, r.fields.get("0"))
+        if not (isinstance(pv, A.Seq) and pv.name.startswith("decoded")):
+            v["payload"] = [False, "the accepted value is %r, not a base64 decoding" % (pv,)]
+    if n_ok == 0:
+        for k in v:
+            v[k] = [False, "no accepting path found by the abstract interpreter"]
+    return {k: tuple(x) for k, x in v.items()}
 
 
 _g = {}
